@@ -18,7 +18,7 @@ PLAN = dict(
                           "priority_queue_node: only 'a strictly higher-priority item was surely buffered during the whole hand-out interval' is a violation",
                           "limiter_node: forwarded minus invoked decrements <= threshold at every forward; early decrements may be clamped, so the number that passes is not predicted, "
                           "only conservation, saturation and one-release-per-decrement at quiescence"],
-    floor=dict(quick=150, thorough=1500),
+    floor=dict(quick=300, thorough=10000),
     tiers=dict(
         quick=[det("rel", H, "cs-rel", 16, 85, 4, tso=True, time_cap=28),
                det("dbg", H, "cs-dbg", 16, 35, 4, tso=True, time_cap=22),
